@@ -146,7 +146,7 @@ reg('C20', 'model_checking',
     'exhaustive configuration enumeration on the real builder / exporter / importer vs. independent grammar recogniser', 'DESIGN.md 2/C20')
 
 reg('C15', 'model_checking',
-    'Breadth-first explicit-state search over key-management histories on real PGPKey objects: 25 operations (add identity / image, add signing / encryption '
+    'Breadth-first explicit-state search over key-management histories on real PGPKey objects: 26 operations (add identity / image / empty identity, add signing / encryption '
     'subkey, re-certify with new preferences, same-second re-certification at the same and at another certification level, third-party certification exportable / local / issuer by key id only, third-party direct-key signature, revoke identity / subkey / key, designated revoker, '
     'direct-key signature, delete identity, protect, derive public key, copy, export-import) from Ed25519 / P-256 / RSA-2048 roots, every successor rebuilt by '
     'replaying the history on fresh objects under a virtual clock, deduplicated on a canonical export; the preference lists, flag sets and image buffer passed to each operation belong to the caller and are emptied / overwritten after the call; a reference model runs in lock-step and in every state '
